@@ -40,6 +40,10 @@ class BudgetExhausted(Exception):
     pass
 
 
+class BudgetStop(BaseException):
+    '''Raised inside a Hypothesis test when the wall-clock budget is spent.'''
+
+
 def canon(value):
     return json.dumps(value, sort_keys=True, separators=(',', ':'), default=_default)
 
@@ -218,7 +222,9 @@ def hyp_run(ctx, check, strategy, body, max_examples, shrink=True, stateful_step
     @given(strategy)
     def test(case):
         if ctx.over_budget():
-            return          # budget hit: remaining examples are no-ops (inconclusive, not failures)
+            # budget hit: stop generating (inconclusive) or stop shrinking (keep what we have);
+            # a BaseException is the only thing Hypothesis lets through untouched
+            raise BudgetStop()
         last['case'] = case
         try:
             body(case)
@@ -233,8 +239,10 @@ def hyp_run(ctx, check, strategy, body, max_examples, shrink=True, stateful_step
 
     try:
         test()
-    except BudgetExhausted:
-        pass
+    except BudgetStop:
+        if 'violation' in last:
+            case, message, sig = last['violation']
+            ctx.violations.append({'check': check, 'case': case, 'message': message, 'sig': sig})
     except Violation as v:
         case, message, sig = last['violation']
         ctx.violations.append({'check': check, 'case': case, 'message': message, 'sig': sig})
